@@ -13,6 +13,7 @@ MODULES = {
     "C07": "props.c07",
     "C08": "props.c08",
     "C09": "props.c09",
+    "C10": "props.c10",
     "C11": "props.c11",
     "C15": "props.c15",
     "C16": "props.c16",
